@@ -113,3 +113,32 @@ PROPS["C26"] = dict(
     uncovered=["AsyncPDataWriter (Poll/Pin/Context; no async support in either verifier)",
                "PDataReader (BytesMut, read_pdu)"],
 )
+
+# ----------------------------------------------------------------------- C08
+_AD = DEC + "adaptive_le.rs"
+_H = "decode::adaptive_le::verif_harness::"
+PROPS["C08"] = dict(
+    level="proof",
+    units=[
+        K("C08.first_header", "dicom-encoding", [_H + "c08_first_header"],
+          "AdaptiveVRLittleEndianDecoder::decode_header in state Unknown, any 12 bytes, any dictionary answer: explicit "
+          "data (bytes 4..6 spell a VR the dictionary does not contradict) is read exactly as ExplicitVRLittleEndianDecoder "
+          "reads it and locks Explicit; otherwise exactly as ImplicitVRLittleEndianDecoder<D> and locks Implicit; "
+          "delimiters decide nothing",
+          fns=[(_AD, "decode_header", r"impl<D>\s+Decode\s+for\s+AdaptiveVRLittleEndianDecoder"),
+               (_AD, "decode_explicit_length"), (_AD, "decode_explicit_header"), (_AD, "decode_implicit_length"),
+               (_AD, "resolve_vr")]),
+        K("C08.locked", "dicom-encoding", [_H + "c08_locked_explicit", _H + "c08_locked_implicit"],
+          "every later header: a locked decoder equals the corresponding decoder on any 12 bytes and never unlocks "
+          "(induction over the stream is then immediate)"),
+        K("C08.vr_compatible", "dicom-encoding", [_H + "c08_vr_compatible"],
+          "vr_compatible_with_virtual == meaning of the virtual VRs (34 x 38 table)",
+          fns=[(_AD, "vr_compatible_with_virtual")]),
+    ],
+    assumptions=[
+        "dictionary abstracted by its contract: by_tag answers one arbitrary fixed Option<entry> for the tag looked up",
+        "in group FFFE only item/delimiter tags occur and the dictionary has no entry for them (locked-implicit unit)",
+        "explicit data whose first VR contradicts the dictionary entry is outside the property as read (DESIGN.md C08)",
+    ],
+    uncovered=["DataSetReader option plumbing (flexible_decoding)"],
+)
